@@ -202,7 +202,10 @@ var callBinds = map[string]callBind{
 	"rsa.DecryptPKCS1v15":             {tmpl: "(pkcs1 rsa_pkcs1 %s)", use: []int{2}, lits: map[int]string{0: "rand.Reader", 1: "pk"}, nargs: 3, typ: "res:[]byte,error"},
 	"aes.NewCipher":                   {tmpl: "(new_cipher %s)", use: []int{0}, nargs: 1, typ: "res:cipher.Block,error"},
 	// tree-level entry points: parts of the pipeline modelled elsewhere are Section variables of GenTree.v
-	"sp.validateElementSignature":     {tmpl: "(dsig_call dsig %s)", use: []int{0}, deref: map[int]bool{0: true}, nargs: 1, typ: "res:*etree.Element,error"},
+	// validateElementSignature is translated on its own in unit_vctx.go (GenVctx.v); the tree unit binds the call to the hand
+	// model of that function over the signature oracle (Response.validate_element_signature: goxmldsig's answer, except that
+	// "missing" on an element enveloping a ds:Signature child is an error), which P_GenVctx.v ties to the translated body
+	"sp.validateElementSignature":     {tmpl: "(ves_call dsig %s)", use: []int{0}, deref: map[int]bool{0: true}, nargs: 1, typ: "res:*etree.Element,error"},
 	"sp.validationContext().Validate": {tmpl: "(dsig_call dsig %s)", use: []int{0}, deref: map[int]bool{0: true}, nargs: 1, typ: "res:*etree.Element,error"},
 	"etreeutils.NSDetatch":            {tmpl: "(res_some (detach %s %s))", use: []int{0, 1}, deref: map[int]bool{1: true}, nargs: 2, typ: "res:*etree.Element,error"},
 	"M:*etree.Document.Root":          {tmpl: "(Some %s)", use: []int{-1}, deref: map[int]bool{-1: true}, nargs: 0, typ: "*etree.Element"},
@@ -920,6 +923,10 @@ func (x *xlat) expr(e ast.Expr) ex {
 			case "dsig":
 				if n.Sel.Name == "ErrMissingSignature" {
 					return ex{term: "(Some EMissingSignature)", typ: "error"}
+				}
+				if n.Sel.Name == "ErrInvalidSignature" {
+					// goxmldsig's errors.New("Invalid Signature"): a dependency error (class EOther)
+					return ex{term: "(Some (EOther \"Invalid Signature\"))", typ: "error"}
 				}
 			}
 			if c, ok := qualConsts[id.Name+"."+n.Sel.Name]; ok {
